@@ -23,6 +23,8 @@ package main
 //   uspec/ids-wire          TransportParameterIDs = sort(canon(ids read from the wire bytes))
 //   uspec/populate-view     typed read-back = last typed occurrence of each parameter
 //   uspec/populate-override ClientOverride is byte-identical to what uTLS serialises
+//   uspec/raw-verbatim      every raw/fake parameter (also with the id of a typed one, 0x0f in
+//                           particular) is serialised with exactly its own bytes
 //   uspec/dial-wire         suppress -> (shuffle) -> populate: the extension bytes parse to
 //                           the kept parameters, in order unless shuffled
 //   uspec/perm-coverage, uspec/perm-chi2   distribution support (small lists)
@@ -160,7 +162,15 @@ func uGenParam(r *u.Rng) uPar {
 		}
 	case k < 80: // fake / raw
 		var id uint64
-		switch r.Intn(6) {
+		switch r.Intn(8) {
+		case 6: // raw initial_source_connection_id: must go out verbatim, whatever the SCID is
+			return uPar{&tls.FakeQUICTransportParameter{Id: 0xf, Val: r.Bytes([]int{0, 8, 24}[r.Intn(3)])}, false}
+		case 7: // raw copy of a typed id (an asserted id makes PopulateFromUQUIC panic: modelled)
+			ids := []uint64{0x2, 0x3, 0xa, 0xc, 0xd, 0x10, 0x11, 0x15, 0x2ab2, 0xf}
+			if r.Chance(1, 5) {
+				ids = []uint64{0x1, 0x4, 0x5, 0x6, 0x7, 0x8, 0x9, 0xb, 0xe, 0x20}
+			}
+			return uPar{&tls.FakeQUICTransportParameter{Id: ids[r.Intn(len(ids))], Val: r.Bytes(r.Intn(9))}, false}
 		case 0:
 			id = uGreaseID(r) // GREASE-shaped literal id
 		case 1:
@@ -273,7 +283,9 @@ func uZUList(xs []uint64) string {
 func uSnapshot(l tls.TransportParameters) []fpParam {
 	out := make([]fpParam, len(l))
 	for i, tp := range l {
-		out[i] = fpParam{tp.ID(), append([]byte{}, tp.Value()...)}
+		_, ph := tp.(tls.InitialSourceConnectionID)
+		_, raw := tp.(*tls.FakeQUICTransportParameter)
+		out[i] = fpParam{ID: tp.ID(), Val: append([]byte{}, tp.Value()...), Placeholder: ph, Raw: raw}
 	}
 	return out
 }
@@ -595,7 +607,7 @@ func uPopulateCase(o *uOut, r *u.Rng) {
 	inTerm := uTerm(ps, in)
 	pre := uSnapshot(in)
 	typed := uTypedFlags(ps, in)
-	scid := r.Bytes([]int{0, 0, 3, 8, 20}[r.Intn(5)])
+	scid := r.Bytes([]int{0, 0, 3, 6, 8, 20}[r.Intn(6)])
 	l := append(tls.TransportParameters{}, in...)
 	expectPanic := uExpectPanic(ps, l)
 	tp := &wire.TransportParameters{InitialSourceConnectionID: protocol.ParseConnectionID(scid)}
@@ -630,8 +642,12 @@ func uPopulateCase(o *uOut, r *u.Rng) {
 				}
 			}
 		}
-		if wps, err := fpReadParams(body); err != nil || !fpSameOrder(exp, wps) {
+		wps, err := fpReadParams(body)
+		if err != nil || !fpSameOrder(exp, wps) {
 			o.fail("uspec/wire-mismatch", fmt.Sprintf("after PopulateFromUQUIC the extension does not read back as the list (err=%v)", err), detail+" read="+fpParamsString(wps))
+		}
+		if m := fpRawVerbatim(pre, wps); m != nil {
+			o.fail("uspec/raw-verbatim", fmt.Sprintf("raw parameter %x=%x is not in the extension with the spec's bytes", m.ID, m.Val), detail+" read="+fpParamsString(wps))
 		}
 		res = u.Opt(true, u.Pair(uViewTerm(tp), uAfterTerm(ps, l), u.Hex(tp.ClientOverride)))
 	}
@@ -651,7 +667,7 @@ func uDialCase(o *uOut, r *u.Rng) {
 	randomize := r.Bool()
 	in := uTPs(ps)
 	inTerm := uTerm(ps, in)
-	scid := r.Bytes([]int{0, 0, 3, 8}[r.Intn(4)])
+	scid := r.Bytes([]int{0, 0, 3, 6, 8}[r.Intn(5)])
 	ext := &tls.QUICTransportParametersExtension{TransportParameters: append(tls.TransportParameters{}, in...)}
 	quic.SuppressQUICTransportParameters(ext, sup)
 	kept := uSnapshot(ext.TransportParameters)
@@ -711,6 +727,9 @@ func uDialCase(o *uOut, r *u.Rng) {
 			if !uKeep(p.ID, sup) {
 				o.fail("uspec/dial-wire", fmt.Sprintf("suppressed parameter %x is in the extension", p.ID), detail)
 			}
+		}
+		if m := fpRawVerbatim(kept, wps); m != nil {
+			o.fail("uspec/raw-verbatim", fmt.Sprintf("raw parameter %x=%x is not in the extension with the spec's bytes", m.ID, m.Val), detail+" wire="+fpParamsString(wps))
 		}
 		if !bytes.Equal(body, tp.ClientOverride) {
 			o.fail("uspec/populate-override", fmt.Sprintf("ClientOverride %x differs from what uTLS serialises %x", tp.ClientOverride, body), detail)
